@@ -573,10 +573,11 @@ def isoptionaltype(obj: type[_OT]) -> compat.TypeIs[type[tp.Optional[_OT]]]:
     False
     """
     args = getattr(obj, "__args__", ())
-    tname = name(origin(obj))
+    og = origin(obj)
     nullarg = next((a for a in args if a in (type(None), None)), ...)
-    isoptional = tname == "Optional" or (
-        nullarg is not ... and tname in ("Union", "UnionType", "Literal")
+    # Compare the origin itself, not its name: a class may be called `Union`.
+    isoptional = og is tp.Optional or (
+        nullarg is not ... and (_isunionorigin(og) or og is tp.Literal)
     )
     return isoptional
 
@@ -586,8 +587,11 @@ _OT = tp.TypeVar("_OT")
 
 @compat.cache
 def isuniontype(obj: type) -> compat.TypeIs[tp.Union]:
-    n = name(origin(obj))
-    return n in ("Union", "UnionType")
+    return _isunionorigin(origin(obj))
+
+
+def _isunionorigin(og: tp.Any) -> bool:
+    return og is tp.Union or og is types.UnionType
 
 
 @compat.cache
